@@ -9,14 +9,16 @@ Local Open Scope N_scope.
 (* what the options say about one function *)
 Record strig := { sf : option bool;       (* -F f / -T f@filter (Some true), -N f / -T f@notrace (Some false) *)
                   sd : option N;          (* -T f@depth=N *)
-                  stm : option N }.       (* -T f@time=T *)
-Definition notrig2 : strig := {| sf := None; sd := None; stm := None |}.
+                  stm : option N;         (* -T f@time=T *)
+                  str : bool;             (* -T f@trace *)
+                  sc : bool }.            (* -C f / -T f@caller *)
+Definition notrig2 : strig := {| sf := None; sd := None; stm := None; str := false; sc := false |}.
 
 Definition ftrig2 (g : strig) : trig :=
   {| t_filter := sf g; t_depth := sd g; t_time := stm g; t_size := None;
-     t_trace_on := false; t_trace_off := false; t_trace := false; t_caller := false |}.
-Definition fcfg2 (tg : N -> strig) (fm : bool) (gd thr ms : N) (sh : shape) : cfg :=
-  {| trig_of := fun a => ftrig2 (tg a); fmode_in := fm; has_caller := false; gdepth := gd; threshold := thr;
+     t_trace_on := false; t_trace_off := false; t_trace := str g; t_caller := sc g |}.
+Definition fcfg2 (tg : N -> strig) (fm hc : bool) (gd thr ms : N) (sh : shape) : cfg :=
+  {| trig_of := fun a => ftrig2 (tg a); fmode_in := fm; has_caller := hc; gdepth := gd; threshold := thr;
      max_stack := ms; sym_size := fun _ => 0; shp := sh |}.
 
 Record sctx2 := { dead2 : bool;      (* inside a notrace function *)
@@ -32,9 +34,11 @@ Definition is_some {A} (o : option A) : bool := match o with Some _ => true | No
    nesting from the outermost shown function, afresh inside a filter function and inside a function with a
    depth=N trigger (N levels, the function itself included, until it returns); time=T replaces the threshold
    for the function and everything below it until it returns; a selected call that did not run longer than
-   the threshold in force is hidden unless one of its callees is shown.  Trigger actions of a function outside
-   every opt-in filter function are not looked at. *)
-Fixpoint sel2 (tg : N -> strig) (x : sctx2) (d : N) (k : call) : list rec :=
+   the threshold in force is hidden unless one of its callees is shown; with a caller filter (-C, [hc]) a
+   selected call is shown only if it is a caller-filter function itself (and passes the time test) or one of its
+   callees is shown; a function with the trace action is shown whenever it is selected, whatever the time and
+   caller filters say.  Trigger actions of a function outside every opt-in filter function are not looked at. *)
+Fixpoint sel2 (tg : N -> strig) (hc : bool) (x : sctx2) (d : N) (k : call) : list rec :=
   match k with
   | Call a t0 t1 kids =>
       if dead2 x then []
@@ -53,13 +57,13 @@ Fixpoint sel2 (tg : N -> strig) (x : sctx2) (d : N) (k : call) : list rec :=
               if 0 <? bud then
                 let x' := {| dead2 := false; scope2 := scope2 x || is_some (sf g); budget2 := bud - 1;
                              lim2 := lim'; cthr2 := thr' |} in
-                let ks := flat_map (sel2 tg x' (d + 1)) kids in
-                if (thr' <? t1 - t0) || negb (is_nil ks) then E_ a t0 d :: ks ++ [X_ a t1 d] else []
+                let ks := flat_map (sel2 tg hc x' (d + 1)) kids in
+                if ((thr' <? t1 - t0) && (negb hc || sc g)) || str g || negb (is_nil ks) then E_ a t0 d :: ks ++ [X_ a t1 d] else []
               else
                 (* beyond the depth limit: not shown; a time= trigger still governs what is below *)
-                flat_map (sel2 tg {| dead2 := false; scope2 := scope2 x; budget2 := budget2 x; lim2 := lim2 x;
+                flat_map (sel2 tg hc {| dead2 := false; scope2 := scope2 x; budget2 := budget2 x; lim2 := lim2 x;
                                      cthr2 := thr' |} d) kids
-            else flat_map (sel2 tg x d) kids
+            else flat_map (sel2 tg hc x d) kids
         end
   end.
 
